@@ -6,7 +6,7 @@ Open Scope Z_scope.
 (* ---- observation classes (what the scripted peer and the verif accessor saw) ------------------
    1 LoginResp ok | 2 work connection pooled | 3 NewVisitorConnResp ok | 4 Pong ok | 5 NewProxyResp ok
    6 no reply, session still answers | 7 no such session | 8 session gone after close | 9 sweep done
-   1x LoginResp{Error} + close (x = error text class) | 20 closed silently (unknown run id / pool full)
+   1x LoginResp{Error} + close (x = error text class; 19: refused by the Login plugin chain) | 20 closed silently (unknown run id / pool full)
    22/23 NewVisitorConnResp{Error} + close | 24 closed silently (first message of another type)
    3x StartWorkConn{Error} + close (39: refused by the plugin chain) | 4x Pong{Error} | 51/52/53 NewProxyResp{Error} *)
 Definition c04_verr_code (e : au_verr) : Z :=
@@ -27,6 +27,7 @@ Definition c04_out_code (o : au_out) : Z :=
   | AuOClosed => 8
   | AuOChecked => 9
   | AuORefused (AuRLogin e) => 10 + c04_verr_code e
+  | AuORefused AuRLoginPlugin => 19
   | AuORefused AuRWorkUnknownRun => 20
   | AuORefused AuRWorkPoolFull => 20
   | AuORefused AuRVisitorUnknownRun => 22
@@ -43,7 +44,8 @@ Definition c04_refusal_code (z : Z) : bool :=
 
 (* one session as seen through server.VerifC04Sessions *)
 Record c04_osess := {
-  os_rid : bytes; os_pool : Z; os_proxies : list bytes; os_last_ping : Z; os_pass : bool
+  os_rid : bytes; os_pool : Z; os_proxies : list bytes; os_last_ping : Z; os_pass : bool;
+  os_user : bytes     (* ctl.loginMsg.User: the identity the rest of the server sees *)
 }.
 
 (* server state snapshot after a step: sessions (sorted by run id), proxy.Manager names, OIDC subjects *)
@@ -55,12 +57,54 @@ Record c04_step := { cs_event : au_event; cs_code : Z; cs_rid : bytes (* run id 
 Definition c4L rid key ts user pool ty pass : au_login :=
   {| al_rid := rid; al_key := key; al_ts := ts; al_user := user; al_pool := pool;
      al_spec := {| asp_type := ty; asp_always_pass := pass |} |}.
-Definition c4OS rid pool proxies lp pass : c04_osess :=
-  {| os_rid := rid; os_pool := pool; os_proxies := proxies; os_last_ping := lp; os_pass := pass |}.
+Definition c4OS rid pool proxies lp pass user : c04_osess :=
+  {| os_rid := rid; os_pool := pool; os_proxies := proxies; os_last_ping := lp; os_pass := pass; os_user := user |}.
 Definition c4SN ss px sub : c04_snap := {| sn_sessions := ss; sn_pxys := px; sn_subjects := sub |}.
 Definition c4ST ev code rid sn : c04_step := {| cs_event := ev; cs_code := code; cs_rid := rid; cs_snap := sn |}.
 Definition c4CFG m token scopes maxpool hb : au_cfg :=
   {| ac_method := m; ac_token := token; ac_scopes := scopes; ac_max_pool := maxpool; ac_hb_timeout := hb |}.
+
+(* the authentication keys of a legacy frps.ini [common] section *)
+Record c04_ini := {
+  ini_method : bytes;          (* authentication_method *)
+  ini_token : bytes;           (* token *)
+  ini_hb : bool; ini_wc : bool;  (* authenticate_heartbeats, authenticate_new_work_conns *)
+  ini_issuer : bytes; ini_audience : bytes;   (* oidc_issuer, oidc_audience *)
+  ini_skip_expiry : bool; ini_skip_issuer : bool   (* oidc_skip_expiry_check, oidc_skip_issuer_check *)
+}.
+(* v1.AuthServerConfig after loading *)
+Record c04_v1auth := {
+  v1_method : bytes; v1_token : bytes; v1_scopes : list au_scope;
+  v1_issuer : bytes; v1_audience : bytes; v1_skip_expiry : bool; v1_skip_issuer : bool
+}.
+Definition c4INI m t hb wc iss aud se si : c04_ini :=
+  {| ini_method := m; ini_token := t; ini_hb := hb; ini_wc := wc; ini_issuer := iss; ini_audience := aud;
+     ini_skip_expiry := se; ini_skip_issuer := si |}.
+Definition c4V1 m t sc iss aud se si : c04_v1auth :=
+  {| v1_method := m; v1_token := t; v1_scopes := sc; v1_issuer := iss; v1_audience := aud; v1_skip_expiry := se; v1_skip_issuer := si |}.
+Definition c4TF sig sub iss aud until : au_token_facts :=
+  {| atf_sig_ok := sig; atf_sub := sub; atf_iss_ok := iss; atf_aud := aud; atf_valid_until := until |}.
+
+(* every key arrives in the field of the same meaning (method defaults to "token") *)
+Definition c04_ini_expected (i : c04_ini) : c04_v1auth :=
+  {| v1_method := match ini_method i with [] => hx "746f6b656e" | m => m end;
+     v1_token := ini_token i;
+     v1_scopes := (if ini_hb i then [AuScHeartBeats] else []) ++ (if ini_wc i then [AuScNewWorkConns] else []);
+     v1_issuer := ini_issuer i; v1_audience := ini_audience i;
+     v1_skip_expiry := ini_skip_expiry i; v1_skip_issuer := ini_skip_issuer i |}.
+
+Fixpoint c04_scopes_eqb (a b : list au_scope) : bool :=
+  match a, b with
+  | [], [] => true
+  | x :: a', y :: b' => au_scope_eqb x y && c04_scopes_eqb a' b'
+  | _, _ => false
+  end.
+Definition c04_v1_eqb (a b : c04_v1auth) : bool :=
+  bytes_eqb (v1_method a) (v1_method b) && bytes_eqb (v1_token a) (v1_token b) && c04_scopes_eqb (v1_scopes a) (v1_scopes b) &&
+  bytes_eqb (v1_issuer a) (v1_issuer b) && bytes_eqb (v1_audience a) (v1_audience b) &&
+  Bool.eqb (v1_skip_expiry a) (v1_skip_expiry b) && Bool.eqb (v1_skip_issuer a) (v1_skip_issuer b).
+Definition c04_policy_of (v : c04_v1auth) : au_oidc_policy :=
+  {| aop_audience := v1_audience v; aop_skip_expiry := v1_skip_expiry v; aop_skip_issuer := v1_skip_issuer v |}.
 
 Inductive case :=
 | CAuth (cfg : au_cfg) (hash_tab : list (Z * bytes)) (oidc_tab : list (bytes * option (bytes * Z))) (steps : list c04_step)
@@ -69,7 +113,12 @@ Inductive case :=
    timestamp and pool count (oracles), and what was seen: ssh handshake accepted, session in the table, proxy
    registered, that session's always-pass flag, session table size *)
 | CSsh (cfg : au_cfg) (hash_tab : list (Z * bytes)) (keys : sg_keys) (attempts : list sg_attempt)
-       (cmd_token cmd_user : bytes) (ts pool : Z) (ssh_ok session proxy pass : bool) (nsessions : Z).
+       (cmd_token cmd_user : bytes) (ts pool : Z) (lplug : au_lplug) (ssh_ok session proxy pass : bool) (nsessions : Z)
+       (user : bytes)   (* ctl.loginMsg.User of the session, [] if none *)
+(* authentication settings given as a legacy frps.ini and as the equivalent toml, both loaded by the real
+   config.LoadServerConfig, and — for OIDC — what a frps started from the ini-loaded configuration did with tokens whose
+   properties the harness knows by construction (driver ini) *)
+| CIni (ini : c04_ini) (from_ini from_toml : c04_v1auth) (tokens : list (au_token_facts * bool)).
 
 (* ---- oracles from tables ------------------------------------------------------------------------ *)
 
@@ -103,7 +152,8 @@ Definition c04_oidc (t : list (bytes * option (bytes * Z))) (k : bytes) (now : Z
 
 Definition c04_event_keys (e : au_event) : list (bytes * Z) :=
   match e with
-  | AuEFirst _ _ _ _ (AuFLogin l) => [(al_key l, al_ts l)]
+  | AuEFirst _ _ _ _ (AuFLogin l (AuLPlugRewrite l')) => [(al_key l, al_ts l); (al_key l', al_ts l')]
+  | AuEFirst _ _ _ _ (AuFLogin l _) => [(al_key l, al_ts l)]
   | AuEFirst _ _ _ _ (AuFWorkConn _ k ts (AuPlugRewrite k' ts')) => [(k, ts); (k', ts')]
   | AuEFirst _ _ _ _ (AuFWorkConn _ k ts _) => [(k, ts)]
   | AuELater _ _ (AuLPing k ts) => [(k, ts)]
@@ -137,7 +187,8 @@ Definition c04_sess_matches (x : au_session) (o : c04_osess) : bool :=
   (Z.of_nat (length (as_pool x)) =? os_pool o) &&
   c04_same_set (as_proxies x) (os_proxies o) &&
   (as_last_ping x =? os_last_ping o) &&
-  Bool.eqb (au_verifier_eqb (as_verifier x) AuAlwaysPass) (os_pass o).
+  Bool.eqb (au_verifier_eqb (as_verifier x) AuAlwaysPass) (os_pass o) &&
+  bytes_eqb (al_user (as_login x)) (os_user o).
 
 Definition c04_sessions_match (s : au_state) (sn : c04_snap) : bool :=
   Nat.eqb (length (at_sessions s)) (length (sn_sessions sn)) &&
@@ -176,7 +227,7 @@ Fixpoint c04_walk (cfg : au_cfg) (H : bytes -> Z -> bytes) (oi : bytes -> Z -> o
 Definition c04_osess_eqb (a b : c04_osess) : bool :=
   bytes_eqb (os_rid a) (os_rid b) && (os_pool a =? os_pool b) &&
   c04_bytes_list_eqb (os_proxies a) (os_proxies b) && (os_last_ping a =? os_last_ping b) &&
-  Bool.eqb (os_pass a) (os_pass b).
+  Bool.eqb (os_pass a) (os_pass b) && bytes_eqb (os_user a) (os_user b).
 
 Fixpoint c04_osess_list_eqb (a b : list c04_osess) : bool :=
   match a, b with
@@ -218,10 +269,16 @@ Definition c04_monitor_step (cfg : au_cfg) (H : bytes -> Z -> bytes) (oi : bytes
   (* M1: anything answered with a refusal leaves no trace in the server state *)
   if c04_refusal_code code && negb (c04_snap_eqb before after) then 1
   else match cs_event st with
-  | AuEFirst internal _ now _ (AuFLogin l) =>
-      (* M2: a session is created only for a login carrying the credential, or on the internal listener with the flag *)
-      if (code =? 1) && negb (c04_cred_login cfg H oi now (al_key l) (al_ts l) || (internal && asp_always_pass (al_spec l)))
-      then 2 else 0
+  | AuEFirst internal _ now _ (AuFLogin l0 lplug) =>
+      (* M2: a session is created only if the Login plugin chain let the login through and what it RETURNED carries the
+         credential, or arrived on the internal listener with the flag *)
+      if code =? 1 then
+        match au_lplug_apply lplug l0 with
+        | None => 8
+        | Some l =>
+            if negb (c04_cred_login cfg H oi now (al_key l) (al_ts l) || (internal && asp_always_pass (al_spec l))) then 2 else 0
+        end
+      else 0
   | AuEFirst _ _ now _ (AuFWorkConn rid k0 ts0 plug) =>
       (* M3: a work connection is pooled only for a known run id, only if the plugin chain let it through and,
          with the scope on and a session held to the configured verifier, only if what the chain RETURNED carries
@@ -272,18 +329,25 @@ Definition c04_ssh_key_authorised (keys : sg_keys) (attempts : list sg_attempt) 
   end.
 
 Definition c04_ssh_monitor (cfg : au_cfg) (keys : sg_keys) (attempts : list sg_attempt) (cmd_token : bytes)
-  (session proxy : bool) (nsessions : Z) : Z :=
+  (lplug : au_lplug) (session proxy : bool) (nsessions : Z) : Z :=
   if (session || proxy || (0 <? nsessions)) &&
-     negb (c04_ssh_key_authorised keys attempts || bytes_eqb cmd_token (ac_token cfg)) then 18 else 0.
+     negb (c04_ssh_key_authorised keys attempts || bytes_eqb cmd_token (ac_token cfg)) then 18
+  else if (session || proxy || (0 <? nsessions)) && match lplug with AuLPlugReject => true | _ => false end then 19
+  else 0.
 
 Definition C04_holds (c : case) : bool :=
   match c with
   | CAuth cfg ht ot steps => c04_monitor cfg (c04_H cfg ht) (c04_oidc ot) c04_empty_snap 0 steps =? 0
-  | CSsh cfg _ keys attempts cmd_token _ _ _ _ session proxy _ n => c04_ssh_monitor cfg keys attempts cmd_token session proxy n =? 0
+  | CSsh cfg _ keys attempts cmd_token _ _ _ lplug _ session proxy _ n _ =>
+      c04_ssh_monitor cfg keys attempts cmd_token lplug session proxy n =? 0
+  | CIni ini _ _ tokens =>
+      (* a token the policy WRITTEN IN THE INI must reject is never accepted *)
+      forallb (fun ta : au_token_facts * bool =>
+                 negb (snd ta && au_token_unacceptable (c04_policy_of (c04_ini_expected ini)) (fst ta) 0)) tokens
   end.
 
 (* 0 = model and implementation agree and the monitors hold; 99 = oracle tables incomplete (harness bug);
-   otherwise 100*(step+1) + reason: 1..5 correspondence (see c04_walk), 11..17 monitor codes 1..7 *)
+   otherwise 100*(step+1) + reason: 1..5 correspondence (see c04_walk), 11..18 monitor codes 1..8 *)
 Definition check_case_full (c : case) : Z :=
   match c with
   | CAuth cfg ht ot steps =>
@@ -292,15 +356,16 @@ Definition check_case_full (c : case) : Z :=
         let m := c04_monitor cfg (c04_H cfg ht) (c04_oidc ot) c04_empty_snap 0 steps in
         if negb (m =? 0) then m
         else c04_walk cfg (c04_H cfg ht) (c04_oidc ot) au_init 0 steps
-  | CSsh cfg ht keys attempts cmd_token cmd_user ts pool ssh_ok session proxy pass n =>
-      (* reasons: 18 monitor (session without authorised key or right token) | 21 ssh handshake outcome differs |
-         22 session / no session differs | 23 proxy registered differs | 24 always-pass flag differs | 25 table size *)
+  | CSsh cfg ht keys attempts cmd_token cmd_user ts pool lplug ssh_ok session proxy pass n user =>
+      (* reasons: 18 monitor (session without authorised key or right token) | 19 monitor (session although the Login plugin
+         rejected) | 21 ssh handshake outcome differs | 22 session / no session differs | 23 proxy registered differs |
+         24 always-pass flag differs | 25 table size | 26 the session's user is not the one the plugin chain returned *)
       if negb (match c04_hash_lookup ts ht with Some _ => true | None => false end) then 99
       else
-        let m := c04_ssh_monitor cfg keys attempts cmd_token session proxy n in
+        let m := c04_ssh_monitor cfg keys attempts cmd_token lplug session proxy n in
         if negb (m =? 0) then 100 + m
         else
-          let '(s', o) := sg_step (c04_H cfg ht) (fun _ _ => None) cfg keys au_init 0 0 [x67] attempts cmd_token cmd_user ts pool in
+          let '(s', o) := sg_step (c04_H cfg ht) (fun _ _ => None) cfg keys au_init 0 0 [x67] attempts cmd_token cmd_user ts pool lplug in
           let m_ssh := match o with SgRefusedAtSsh => false | _ => true end in
           let m_sess := match o with SgForwarded (AuOLoginOk _ _) => true | _ => false end in
           if negb (Bool.eqb m_ssh ssh_ok) then 121
@@ -308,7 +373,18 @@ Definition check_case_full (c : case) : Z :=
           else if negb (Bool.eqb m_sess proxy) then 123
           else if m_sess && negb (Bool.eqb (sg_always_pass keys) pass) then 124
           else if negb (Z.of_nat (length (at_sessions s')) =? n) then 125
+          else if negb (match at_sessions s' with x :: _ => bytes_eqb (al_user (as_login x)) user | [] => true end) then 126
           else 0
+  | CIni ini from_ini from_toml tokens =>
+      (* reasons: 31 the ini did not load into the fields its keys name | 32 the toml did not | 33 a token was treated
+         differently from what the policy written in the ini says | 34 monitor: a token that policy must reject was accepted *)
+      if negb (C04_holds c) then 134
+      else if negb (c04_v1_eqb from_ini (c04_ini_expected ini)) then 131
+      else if negb (c04_v1_eqb from_toml (c04_ini_expected ini)) then 132
+      else if negb (forallb (fun ta : au_token_facts * bool =>
+                      Bool.eqb (match au_oidc_policy_verify (c04_policy_of (c04_ini_expected ini)) (fst ta) 0 with Some _ => true | None => false end)
+                               (snd ta)) tokens) then 133
+      else 0
   end.
 
 (* the reason alone (stable key for reports); the failing step is [check_case_full c / 100 - 1] *)
@@ -316,26 +392,26 @@ Definition check_case (c : case) : Z := check_case_full c mod 100.
 
 (* ---- counters for the evidence: which model branches the cases reached ------------------------------ *)
 Definition c04_case_codes (c : case) : list Z :=
-  match c with CAuth _ _ _ steps => map cs_code steps | CSsh _ _ _ _ _ _ _ _ _ _ _ _ _ => [] end.
+  match c with CAuth _ _ _ steps => map cs_code steps | _ => [] end.
 Definition c04_count_code (z : Z) (l : list case) : Z :=
   fold_left (fun acc c => acc + count_if (fun x => x =? z) (c04_case_codes c)) l 0.
 Definition c04_count_codes_in (lo hi : Z) (l : list case) : Z :=
   fold_left (fun acc c => acc + count_if (fun x => (lo <=? x) && (x <=? hi)) (c04_case_codes c)) l 0.
 Definition c04_count_internal_pass (l : list case) : Z :=
-  fold_left (fun acc c => match c with CSsh _ _ _ _ _ _ _ _ _ _ _ _ _ => acc | CAuth _ _ _ steps =>
+  fold_left (fun acc c => match c with CSsh _ _ _ _ _ _ _ _ _ _ _ _ _ _ _ => acc | CIni _ _ _ _ => acc | CAuth _ _ _ steps =>
      acc + count_if (fun st => match cs_event st with
-                               | AuEFirst true _ _ _ (AuFLogin lg) => asp_always_pass (al_spec lg) && (cs_code st =? 1)
+                               | AuEFirst true _ _ _ (AuFLogin lg _) => asp_always_pass (al_spec lg) && (cs_code st =? 1)
                                | _ => false end) steps end) l 0.
 Definition c04_count_network_claim (l : list case) : Z :=
-  fold_left (fun acc c => match c with CSsh _ _ _ _ _ _ _ _ _ _ _ _ _ => acc | CAuth _ _ _ steps =>
+  fold_left (fun acc c => match c with CSsh _ _ _ _ _ _ _ _ _ _ _ _ _ _ _ => acc | CIni _ _ _ _ => acc | CAuth _ _ _ steps =>
      acc + count_if (fun st => match cs_event st with
-                               | AuEFirst false _ _ _ (AuFLogin lg) => asp_always_pass (al_spec lg) && negb (cs_code st =? 1)
+                               | AuEFirst false _ _ _ (AuFLogin lg _) => asp_always_pass (al_spec lg) && negb (cs_code st =? 1)
                                | _ => false end) steps end) l 0.
 
 (* a token that WAS valid (table entry with a subject) presented at or after the step it stopped being valid,
    and refused (login 14, work connection 35, ping 45) *)
 Definition c04_count_expired_refused (l : list case) : Z :=
-  fold_left (fun acc c => match c with CSsh _ _ _ _ _ _ _ _ _ _ _ _ _ => acc | CAuth cfg _ ot steps =>
+  fold_left (fun acc c => match c with CSsh _ _ _ _ _ _ _ _ _ _ _ _ _ _ _ => acc | CIni _ _ _ _ => acc | CAuth cfg _ ot steps =>
      match ac_method cfg with
      | AuToken => acc
      | AuOidc =>
@@ -351,16 +427,16 @@ Definition c04_count_expired_refused (l : list case) : Z :=
 Definition c04_is_rewrite (e : au_event) : bool :=
   match e with AuEFirst _ _ _ _ (AuFWorkConn _ _ _ (AuPlugRewrite _ _)) => true | _ => false end.
 Definition c04_count_rewrite_refused (l : list case) : Z :=
-  fold_left (fun acc c => match c with CSsh _ _ _ _ _ _ _ _ _ _ _ _ _ => acc | CAuth _ _ _ steps =>
+  fold_left (fun acc c => match c with CSsh _ _ _ _ _ _ _ _ _ _ _ _ _ _ _ => acc | CIni _ _ _ _ => acc | CAuth _ _ _ steps =>
      acc + count_if (fun st => c04_is_rewrite (cs_event st) && (30 <=? cs_code st) && (cs_code st <=? 38)) steps end) l 0.
 Definition c04_count_rewrite_pooled (l : list case) : Z :=
-  fold_left (fun acc c => match c with CSsh _ _ _ _ _ _ _ _ _ _ _ _ _ => acc | CAuth _ _ _ steps =>
+  fold_left (fun acc c => match c with CSsh _ _ _ _ _ _ _ _ _ _ _ _ _ _ _ => acc | CIni _ _ _ _ => acc | CAuth _ _ _ steps =>
      acc + count_if (fun st => c04_is_rewrite (cs_event st) && (cs_code st =? 2)) steps end) l 0.
 
 (* ---- ssh gateway counters --------------------------------------------------------------------------------- *)
 Definition c04_ssh_count (p : sg_keys -> list sg_attempt -> bytes -> au_cfg -> bool -> bool -> bool) (l : list case) : Z :=
   count_if (fun c => match c with
-                     | CSsh cfg _ keys attempts tok _ _ _ ssh_ok session _ _ _ => p keys attempts tok cfg ssh_ok session
+                     | CSsh cfg _ keys attempts tok _ _ _ _ ssh_ok session _ _ _ _ => p keys attempts tok cfg ssh_ok session
                      | _ => false end) l.
 Definition c04_starts_with_publickey (a : list sg_attempt) : bool :=
   match a with SgPublicKey _ _ :: _ => true | _ => false end.
@@ -382,4 +458,45 @@ Definition c04_count_empty_token_refused (l : list case) : Z :=
          | AuToken, [] => acc + count_if (fun st => (cs_code st =? 11) || (cs_code st =? 33) || (cs_code st =? 42)) steps
          | _, _ => acc
          end
+     | _ => acc end) l 0.
+
+(* gateway sessions refused because the Login plugin rejected although the ssh key was authorised *)
+Definition c04_ssh_plugin_refused (l : list case) : Z :=
+  count_if (fun c => match c with
+                     | CSsh _ _ keys attempts _ _ _ _ AuLPlugReject ssh_ok session _ _ _ _ =>
+                         ssh_ok && negb session && c04_ssh_key_authorised keys attempts
+                     | _ => false end) l.
+Definition c04_ssh_plugin_user (l : list case) : Z :=
+  count_if (fun c => match c with
+                     | CSsh _ _ _ _ _ _ _ _ (AuLPlugRewrite _) _ session _ _ _ _ => session
+                     | _ => false end) l.
+(* ini driver *)
+Definition c04_ini_cases (l : list case) : Z := count_if (fun c => match c with CIni _ _ _ _ => true | _ => false end) l.
+Definition c04_ini_unacceptable_refused (l : list case) : Z :=
+  fold_left (fun acc c => match c with
+     | CIni ini _ _ toks => acc + count_if (fun ta : au_token_facts * bool =>
+          negb (snd ta) && au_token_unacceptable (c04_policy_of (c04_ini_expected ini)) (fst ta) 0) toks
+     | _ => acc end) l 0.
+Definition c04_ini_waived_accepted (l : list case) : Z :=
+  fold_left (fun acc c => match c with
+     | CIni ini _ _ toks => acc + count_if (fun ta : au_token_facts * bool =>
+          snd ta && (negb (atf_iss_ok (fst ta)) || (atf_valid_until (fst ta) <=? 0))) toks
+     | _ => acc end) l 0.
+Definition c04_count_login_plugin_rewrite_refused (l : list case) : Z :=
+  fold_left (fun acc c => match c with
+     | CAuth _ _ _ steps => acc + count_if (fun st => match cs_event st with
+            | AuEFirst _ _ _ _ (AuFLogin _ (AuLPlugRewrite _)) => (10 <=? cs_code st) && (cs_code st <=? 18)
+            | _ => false end) steps
+     | _ => acc end) l 0.
+Definition c04_count_login_plugin_rewrite_ok (l : list case) : Z :=
+  fold_left (fun acc c => match c with
+     | CAuth _ _ _ steps => acc + count_if (fun st => match cs_event st with
+            | AuEFirst _ _ _ _ (AuFLogin _ (AuLPlugRewrite _)) => cs_code st =? 1
+            | _ => false end) steps
+     | _ => acc end) l 0.
+Definition c04_count_internal_pass_plugin_reject (l : list case) : Z :=
+  fold_left (fun acc c => match c with
+     | CAuth _ _ _ steps => acc + count_if (fun st => match cs_event st with
+            | AuEFirst true _ _ _ (AuFLogin lg AuLPlugReject) => asp_always_pass (al_spec lg) && (cs_code st =? 19)
+            | _ => false end) steps
      | _ => acc end) l 0.
